@@ -253,6 +253,12 @@ def step (ps : PS) (ws : List String) : PS × String :=
     (match compile ps with
      | some p => (ps, " | ".intercalate (runProg p 400))
      | none => (ps, "build-err other"))
+  | ["rerun", _] =>
+    -- the model is a function of the program: every further run from the same recipe is the same run
+    (match compile ps with
+     | some _ => (ps, "reuse-same")
+     | none => (ps, "build-err other"))
+  | ["runpar", _] => (ps, "par-same")
   | ["fixed", v] => ({ ps with fixedResume := v == "1" }, "ok")
   | [] => (ps, "")
   | w :: _ => if w.startsWith "#" then (ps, "#") else (ps, "bad-op")
